@@ -165,7 +165,10 @@ func (store *Store) Restore() error {
 		return err
 	}
 
-	for database, data := range internal.FilterExpiredKeys(store.clock.Now(), state) {
+	// Keys whose expiry time has passed are restored as well: the commands of the log that is replayed
+	// on top of the preamble may still change or remove their expiry time. What is still expired after
+	// that is removed the first time it is looked at.
+	for database, data := range state {
 		for key, keyData := range data {
 			store.setKeyDataFunc(database, key, keyData)
 		}
